@@ -77,6 +77,12 @@ MUTANTS = [
     ('m23-callback-before-evaluation-of-buffers-8v', ['C16'], 'logic_sim.py',
      "                if op == sim.BUF1: self.c[o0]=self.c[i0]\n                elif op == sim.INV1: logic.bp8v_not(self.c[o0], self.c[i0])",
      "                if op == sim.BUF1: inject_cb is not None and ol < len(self.circuit.lines) and inject_cb(self.circuit.lines[ol], self.c[o0]); self.c[o0]=self.c[i0]; continue\n                elif op == sim.INV1: logic.bp8v_not(self.c[o0], self.c[i0])"),
+    ('m25-cuda-getstate-loses-abuf', ['C06'], 'wave_sim.py',
+     "        state['abuf'] = np.array(self.abuf)\n",
+     "        state['abuf'] = np.zeros_like(np.array(self.abuf))\n"),
+    ('m26-cuda-setstate-forgets-s', ['C06'], 'wave_sim.py',
+     "        self.__dict__.update(state)\n        self.c = cuda.to_device(self.c)\n        self.s = cuda.to_device(self.s)\n",
+     "        self.__dict__.update(state)\n        self.c = cuda.to_device(self.c)\n        self.s = cuda.to_device(np.zeros_like(self.s))\n"),
     ('m18-capture-uses-le', ['C13', 'C06'], 'wave_sim.py',
      "        t = c[line + tidx, vector]\n        if t >= TMAX:\n            if t == TMAX_OVL:\n                ovl = 1\n            break\n        m = -m\n        final ^= 1\n        if t < time:",
      "        t = c[line + tidx, vector]\n        if t >= TMAX:\n            if t == TMAX_OVL:\n                ovl = 1\n            break\n        m = -m\n        final ^= 1\n        if t <= time:"),
